@@ -392,6 +392,15 @@ where
                     return;
                 }
 
+                // Per RFC 8945 § 4.2, the TTL field of a TSIG RR must be
+                // zero. We check the raw field here, since a value with
+                // the most significant bit set reads as zero once it
+                // has become a Ttl.
+                if peek_rr.ttl_field() != 0 {
+                    context.response.set_rcode(Rcode::FORMERR);
+                    return;
+                }
+
                 // Parse the TSIG RR.
                 let message_without_tsig = peek_rr.message_to_rr();
                 let read_rr = match peek_rr.parse() {
